@@ -19,6 +19,7 @@ CONSTANTS
   BinaryKinds,    \* subset of {"Add", "Subtract"}
   Levels,         \* subset of {"channel", "group", "root"}: where the scaling properties are placed
   Shadow,         \* BOOLEAN set: also place a different, disabled or lower-priority scaling elsewhere
+  LongChains,     \* lengths of additional Linear chains (scale i reads scale i-1), e.g. {12}: more scales than digits
   GenPrint
 
 VARIABLES g
@@ -148,7 +149,9 @@ Effective(p) ==    \* what get_scaling returns
   IF live("channel") THEN p["channel"] ELSE IF live("group") THEN p["group"] ELSE IF live("root") THEN p["root"] ELSE "none"
 
 (* ------------------------------- behaviour ------------------------------- *)
-Init == g \in [raw : RawTypes, scales : UNION {Graphs(n) : n \in 1..MaxScales}, place : Placements,
+Chain(n) == [i \in 1..n |-> [kind |-> "Linear", src |-> IF i = 1 THEN RAW ELSE i - 2, p |-> [slope |-> 1, icpt |-> i]]]
+Init == g \in [raw : RawTypes, scales : UNION {Graphs(n) : n \in 1..MaxScales} \cup {Chain(n) : n \in LongChains},
+               place : Placements,
                given : BOOLEAN]          \* given: NI_Number_Of_Scales present (else inferred from the property names)
 Next == UNCHANGED g
 Spec == Init /\ [][Next]_vars
